@@ -16,11 +16,11 @@ import (
 	exel "github.com/google/gce-tcb-verifier/extract/eventlog"
 	"github.com/google/gce-tcb-verifier/extract/extractsev"
 	"github.com/google/gce-tcb-verifier/extract/extracttdx"
-	"github.com/google/gce-tcb-verifier/sev"
-	"github.com/google/gce-tcb-verifier/verify"
 	gcmd "github.com/google/gce-tcb-verifier/gcetcbendorsement/cmd"
 	oabi "github.com/google/gce-tcb-verifier/ovmf/abi"
 	evpb "github.com/google/gce-tcb-verifier/proto/events"
+	"github.com/google/gce-tcb-verifier/sev"
+	"github.com/google/gce-tcb-verifier/verify"
 	"github.com/google/go-sev-guest/abi"
 	spb "github.com/google/go-sev-guest/proto/sevsnp"
 	tpmpb "github.com/google/go-tpm-tools/proto/attest"
@@ -116,7 +116,9 @@ func (p *simProvider) GetRawQuote([64]byte) ([]uint8, error) {
 	}
 	return append([]byte(nil), p.raw...), nil
 }
-func (p *simProvider) GetRawQuoteAtLevel(d [64]byte, _ uint) ([]uint8, error) { return p.GetRawQuote(d) }
+func (p *simProvider) GetRawQuoteAtLevel(d [64]byte, _ uint) ([]uint8, error) {
+	return p.GetRawQuote(d)
+}
 
 func ucs2(s string) []byte {
 	var b []byte
